@@ -89,6 +89,15 @@ fn check(case: &str) -> Option<String> {
             if al.get("a") != Some(&Value::from(1)) || al.get("zz").is_some() { return Some("alist get".into()); }
             if al[String::from("b")] != 2 || al[&String::from("c")] != 3 { return Some("alist String lookup".into()); }
             if al[Value::from(7)] != 5 || al[&Value::symbol("a")] != 1 || al[Value::from(8)] != Value::Nil { return Some("alist key lookup".into()); }
+            // keys that are themselves pairs / lists and differ only in their tail; a non-pair element before the entry looked up by name
+            let k = |d: Value| Value::cons(Value::symbol("x"), d);
+            let al2 = Value::list(vec![Value::symbol("marker"), Value::cons(k(Value::from(1)), Value::symbol("first")), Value::from(42), Value::cons(k(Value::from(2)), Value::symbol("second")),
+                                        Value::cons(Value::list(vec![1, 2]), Value::symbol("proper")), Value::cons(Value::append(vec![1, 2], 3), Value::symbol("dotted")), Value::cons(Value::symbol("b"), 9)]);
+            if al2[k(Value::from(2))] != Value::symbol("second") || al2[k(Value::from(1))] != Value::symbol("first") { return Some("alist lookup by a pair key: entries whose keys differ only in the cdr are confused".into()); }
+            if al2.get(k(Value::from(3))).is_some() || al2.get(k(Value::Null)).is_some() || al2[Value::list(vec![1])] != Value::Nil { return Some("alist lookup by a pair key matches an entry whose key has a different tail".into()); }
+            if al2[Value::append(vec![1, 2], 3)] != Value::symbol("dotted") || al2[Value::list(vec![1, 2])] != Value::symbol("proper") { return Some("alist lookup by a list key: (1 2) and (1 2 . 3) are confused".into()); }
+            if al2["b"] != 9 || al2.get("b") != Some(&Value::from(9)) { return Some("alist lookup by name gives up at a non-pair element before the entry".into()); }
+            if Value::cons(1, 2) == Value::cons(1, 3) || Value::list(vec![1, 2]) == Value::append(vec![1, 2], 3) || Value::cons(1, 2) != Value::cons(1, 2) { return Some("pair equality ignores the tail".into()); }
             let dotted = Value::append(vec![Value::cons(Value::symbol("x"), 1)], Value::symbol("x"));
             if dotted["x"] != 1 || dotted["y"] != Value::Nil { return Some("dotted alist".into()); }
             None
